@@ -39,10 +39,63 @@ def _(c):
     c.native_gen(_gen_obj)
 
 
+def _letters(n):
+    """independent bijective base-26 rendering (a, b, ..., z, aa, ab, ...)"""
+    out = ''
+    n += 1
+    while n > 0:
+        n -= 1
+        out = chr(ord('a') + n % 26) + out
+        n //= 26
+    return out
+
+
+from pyvc.contracts import native_helper
+
+
+@native_helper
+def label_ok(o, text):
+    """the displayed label of an object (C14 / C02) ends in @id followed by the letters of its incarnation (`?` while unresolved) and, when the
+    type is known, is exactly type@id+letters (what stands for an unknown type is presentation, not checked)"""
+    tail = '@' + str(o.id) + (_letters(o.generation) if o.generation is not None else '?')
+    if not text.endswith(tail):
+        return False
+    if o.type:
+        return text == ('unresolved ' if type(o).__name__ == 'UnresolvedObject' else '') + o.type + tail
+    return True
+
+
+def _gen_label(rnd):
+    from core import wl
+    import core.util as u
+    u.color_output = False
+    o = wl.object.MockObject(id=rnd.choice([0, 1, 7, 4278190081]), generation=rnd.choice([0, 1, 25, 26, 27, 51, 52, 701, 702, 18277]), type=rnd.choice(['wl_surface', 'xdg_toplevel', None, '']))
+    return (o,)
+
+
 @contract('core.wl.object.ObjectBase.__str__')
 def _(c):
-    c.trusted('pure and total string builder (colour behaviour: C17)').interface().pure()
+    c.prop('C14', 'C02')
+    c.bounded('pure and total string builder (assumed at call sites; colour behaviour: C17): on generated objects the label is type@id plus the incarnation letters').interface().pure()
     c.returns('str')
+    c.ensures('label_ok(self, result)', 'label_is_type_id_and_incarnation_letters', native_only=True)
+    c.native_gen(_gen_label, quick=300, thorough=3000)
+
+
+def _gen_unresolved_label(rnd):
+    from core import wl
+    import core.util as u
+    u.color_output = False
+    return (wl.UnresolvedObject(rnd.choice([1, 5, 4278190080]), rnd.choice([None, 'wl_surface', ''])),)
+
+
+@contract('core.wl.object.UnresolvedObject.__str__')
+def _(c):
+    c.prop('C14', 'C02')
+    c.bounded('as ObjectBase.__str__, prefixed `unresolved `').pure()
+    c.returns('str')
+    c.ensures('label_ok(self, result)', 'label_is_type_id_and_incarnation_letters', native_only=True)
+    c.native_gen(_gen_unresolved_label, quick=300, thorough=3000)
 
 
 def _gen_create(rnd):
